@@ -91,7 +91,7 @@ Fixpoint dedup_rx (l : list rx) : list rx :=
   end.
 
 (** * Abstract states *)
-Record astate := { aL : list TokenKind; aenv : list (option bool); ar : rx; ac : bool }.
+Record astate := { aL : list TokenKind; aenv : list (option bool); ar : list rx; ac : bool }.   (* ar: a SET of residuals *)
 Definition aval := option bool.                       (* None: unknown / not a boolean *)
 
 Definition kset_mem (k : TokenKind) (s : list TokenKind) : bool := existsb (tk_eqb k) s.
@@ -110,8 +110,10 @@ Fixpoint env_eqb (a b : list (option bool)) : bool :=
   | x :: a', y :: b' => oeqb x y && env_eqb a' b'
   | _, _ => false
   end.
+Definition rxset_sub (a b : list rx) : bool := forallb (fun x => existsb (rx_eqb x) b) a.
 Definition astate_eqb (a b : astate) : bool :=
-  kinds_eqb (aL a) (aL b) && env_eqb (aenv a) (aenv b) && rx_eqb (ar a) (ar b) && Bool.eqb (ac a) (ac b).
+  kinds_eqb (aL a) (aL b) && env_eqb (aenv a) (aenv b) && rxset_sub (ar a) (ar b) && rxset_sub (ar b) (ar a) &&
+  Bool.eqb (ac a) (ac b).
 
 Definition aenv_get (en : list (option bool)) (x : nat) : aval :=
   match nth_error en x with Some v => v | None => None end.
@@ -139,20 +141,30 @@ Section Abs.
   Variable C : cert.
 
   Definition all_kinds : list TokenKind := all_token_kinds.
-  Definition a_pd (l : letter) (r : rx) : list rx := dedup_rx (pd G (c_unf C) (c_dfuel C) l r).
-  Definition a_nullable (r : rx) : bool := nullable G (c_unf C) (c_dfuel C) r.
+  Definition a_pd (l : letter) (rs : list rx) : list rx := dedup_rx (flat_map (pd G (c_unf C) (c_dfuel C) l) rs).
+  Definition a_nullable (rs : list rx) : bool := existsb (nullable G (c_unf C) (c_dfuel C)) rs.
 
   (** consume one token of kind [k]: None when the documented right-hand side allows no such token here *)
   Definition consume (k : TokenKind) (st : astate) : option (list astate) :=
-    if is_trivia k then Some [{| aL := all_kinds; aenv := aenv st; ar := ar st; ac := true |}]
+    if sk_is_trivia (sk_of_tk k) then Some [{| aL := all_kinds; aenv := aenv st; ar := ar st; ac := true |}]
     else match a_pd (inl k) (ar st) with
          | [] => None
-         | rs => Some (map (fun r' => {| aL := all_kinds; aenv := aenv st; ar := r'; ac := true |}) rs)
+         | rs => Some [{| aL := all_kinds; aenv := aenv st; ar := rs; ac := true |}]
          end.
   Definition with_L (st : astate) (L : list TokenKind) : astate :=
     {| aL := L; aenv := aenv st; ar := ar st; ac := ac st |}.
   Definition with_env (st : astate) (en : list (option bool)) : astate :=
     {| aL := aL st; aenv := en; ar := ar st; ac := ac st |}.
+
+  (** `p.eat()`: the current token may be any kind of the look-ahead set; every one must be allowed *)
+  Fixpoint eat_any (st : astate) (ks : list TokenKind) : option (list (aval * astate)) :=
+    match ks with
+    | [] => Some []
+    | k :: r => match consume k st, eat_any st r with
+                | Some l, Some l' => Some (map (fun s => (Some true, s)) l ++ l')
+                | _, _ => None
+                end
+    end.
 
   (** result of an abstract step: [None] = the check fails *)
   Definition aprim (pr : prim) (st : astate) : option (list (aval * astate)) :=
@@ -164,15 +176,7 @@ Section Abs.
         if kset_mem k (aL st)
         then match consume k st with Some l => Some (map (fun s => (Some true, s)) l) | None => None end
         else Some []
-    | PEat =>
-        (fix go (ks : list TokenKind) : option (list (aval * astate)) :=
-           match ks with
-           | [] => Some []
-           | k :: r => match consume k st, go r with
-                       | Some l, Some l' => Some (map (fun s => (Some true, s)) l ++ l')
-                       | _, _ => None
-                       end
-           end) (aL st)
+    | PEat => eat_any st (aL st)
     | PEatIf k =>
         let no := match kset_diff (aL st) [k] with [] => [] | L' => [(Some false, with_L st L')] end in
         if kset_mem k (aL st)
@@ -205,6 +209,32 @@ Section Abs.
 
   Definition neg_aval (v : aval) : aval := match v with Some b => Some (negb b) | None => None end.
 
+  (** one round of a loop from a set of head states [I]: (exits = condition false or break; returns), next head states *)
+  Definition wround (exc exb : astate -> option aouts) (I : list astate) : option (aouts * list astate) :=
+    match run_all exc I with
+    | None => None
+    | Some oc =>
+        match bind_norm {| o_norm := filter (fun vs => match fst vs with Some false => false | _ => true end) (o_norm oc);
+                           o_brk := []; o_ret := [] |} (fun _ st1 => exb st1) with
+        | None => None
+        | Some ob =>
+            let exits := map snd (filter (fun vs => match fst vs with Some true => false | _ => true end) (o_norm oc)) ++ o_brk ob in
+            Some ({| o_norm := map (fun s => (Some true, s)) exits; o_brk := []; o_ret := o_ret oc ++ o_ret ob |},
+                  map snd (o_norm ob))
+        end
+    end.
+  (** grow the head set until it is inductive (the next heads are already in it); the result is that of the last round *)
+  Fixpoint witer (exc exb : astate -> option aouts) (k : nat) (I : list astate) : option aouts :=
+    match k with
+    | O => None
+    | S k' =>
+        match wround exc exb I with
+        | None => None
+        | Some (res, next) =>
+            if subset_states next I then Some res else witer exc exb k' (dedup_states (I ++ next))
+        end
+    end.
+
   Fixpoint aexec (fuel : nat) (e : expr) (st : astate) : option aouts :=
     match fuel with
     | O => None
@@ -233,8 +263,7 @@ Section Abs.
                   | true, [] => None                           (* the documented right-hand side allows no [m] here *)
                   | _, _ =>
                       Some {| o_norm :=
-                                (if ct then map (fun r' => (Some true, {| aL := all_kinds; aenv := aenv st; ar := r'; ac := true |})) ds
-                                 else []) ++
+                                (if ct then [(Some true, {| aL := all_kinds; aenv := aenv st; ar := ds; ac := true |})] else []) ++
                                 (if cf then [(Some false, st)] else []);
                               o_brk := []; o_ret := [] |}
                   end
@@ -276,32 +305,7 @@ Section Abs.
                         end)
           | None => None
           end
-      | EWhile c b =>
-          (* one round from a set of head states: exits (condition false, break), next heads (body normal exits), returns *)
-          let round (I : list astate) : option (aouts * list astate) :=
-            match run_all (fun s0 => aexec n c s0) I with
-            | None => None
-            | Some oc =>
-                match bind_norm {| o_norm := filter (fun vs => match fst vs with Some false => false | _ => true end) (o_norm oc);
-                                   o_brk := []; o_ret := [] |} (fun _ st1 => aexec n b st1) with
-                | None => None
-                | Some ob =>
-                    let exits := map snd (filter (fun vs => match fst vs with Some true => false | _ => true end) (o_norm oc)) ++ o_brk ob in
-                    Some ({| o_norm := map (fun s => (Some true, s)) exits; o_brk := []; o_ret := o_ret oc ++ o_ret ob |},
-                          map snd (o_norm ob))
-                end
-            end in
-          (fix iter (k : nat) (I : list astate) : option aouts :=
-             match k with
-             | O => None
-             | S k' =>
-                 match round I with
-                 | None => None
-                 | Some (res, next) =>
-                     if subset_states next I then Some res
-                     else iter k' (dedup_states (I ++ next))
-                 end
-             end) n [st]
+      | EWhile c b => witer (aexec n c) (aexec n b) n [st]
       | EBreak => Some {| o_norm := []; o_brk := [st]; o_ret := [] |}
       | EReturn a =>
           match aexec n a st with
@@ -319,12 +323,14 @@ Section Abs.
 
   (** * The check of one NT function and of the program *)
   Definition init_state (rhs : rx) : astate :=
-    {| aL := all_kinds; aenv := [None]; ar := rhs; ac := false |}.
+    {| aL := all_kinds; aenv := [None]; ar := [rhs]; ac := false |}.
 
   Definition exit_ok (ct cf : bool) (vs : aval * astate) : bool :=
-    let v := fst vs in let st := snd vs in
-    (match v with Some false => true | _ => ct && a_nullable (ar st) end) &&
-    (match v with Some true => true | _ => cf && negb (ac st) end).
+    match fst vs with
+    | Some true => ct && a_nullable (ar (snd vs))       (* returned true: the consumed word is a word of the nonterminal *)
+    | Some false => cf && negb (ac (snd vs))            (* returned false: nothing was consumed *)
+    | None => false
+    end.
 
   Definition check_fn (fuel : nat) (f : nat) : bool :=
     match c_mode C f with
